@@ -27,8 +27,8 @@ HARNESSES += [HH(x, conc=True) for x in seqs('absBR', 3, minlen=2) if ('b' in x 
 # dispatch_queue_set_width on a busy queue (op Z): the change is a queued barrier executed inside a drain that has already started; reader / barrier bookkeeping afterwards must use the new width
 _zs = [x for x in seqs('abZsR', 4, minlen=2) if x.count('Z') == 1 and not x.endswith('Z')]
 _zq = [x for x in _zs if len(x) <= 3] + ['aZab', 'aZaRb', 'aZsb', 'abZa', 'aZbs']
-HARNESSES += [HH(x, conc=True, entries_extra=['dispatch_queue_set_width'], icall_extra=['_dispatch_lane_set_width'], name_extra='_setwidth') for x in _zq] + \
-             [HH(x, conc=True, entries_extra=['dispatch_queue_set_width'], icall_extra=['_dispatch_lane_set_width'], name_extra='_setwidth', tiers=('thorough',)) for x in _zs if x not in _zq]
+HARNESSES += [HH(x, conc=True, entries_extra=['dispatch_queue_set_width'], icall_extra=['_dispatch_lane_set_width'], name_extra='_setwidth', extra=['-DHAVE_SET_WIDTH']) for x in _zq] + \
+             [HH(x, conc=True, entries_extra=['dispatch_queue_set_width'], icall_extra=['_dispatch_lane_set_width'], name_extra='_setwidth', extra=['-DHAVE_SET_WIDTH'], tiers=('thorough',)) for x in _zs if x not in _zq]
 ASSUMPTIONS = ['tier H: every history of length <= 3 (thorough: 4 with a sync reader) over {async, barrier async, sync reader, barrier sync, worker step} on one concurrent queue that contains a barrier; sequential model threads (a blocked thread lets the pool worker and the other client proceed)', 'tier S: one call of one real width-algebra function from any state word inside the stated caller contract (harness source: st_valid), widths 2..4094, at most 2 interfering replacements of the word',
                'in-flight count is defined from the documented encoding W = (0x1000 - width) + in_flight (+ width-1 when PENDING_BARRIER)',
                'barrier completion, target push and reference counting are counting stubs']
